@@ -200,6 +200,11 @@ def consolidate (rs : List Route) : List Route := rs.foldr consolidateStep []
 def drawGroups (nHandles c : Nat) : Nat × Nat :=
   if nHandles > 1 then (c + 1, c + 2) else (0, c + 1)
 
+/-- the matcher of `handle [<path>]` -/
+def handleSets : Option Nat → List (List Matcher)
+  | some q => [[.atom .path [q]]]
+  | none => []
+
 mutual
 /-- one directive: its route (group still unset) and the counter afterwards -/
 def adaptNode : Node → Nat → Route × Nat
@@ -207,7 +212,7 @@ def adaptNode : Node → Nat → Route × Nat
   | .handle p body, c =>
     match adaptNodes body c with
     | (rs, c1) =>
-      (.mk 0 (match p with | some q => [[.atom .path [q]]] | none => [])
+      (.mk 0 (handleSets p)
           [.sub (consolidate (setGroups (drawGroups (body.filter Node.isHandle).length c1).1 body rs)) false []] false,
         (drawGroups (body.filter Node.isHandle).length c1).2)
 def adaptNodes : List Node → Nat → List Route × Nat
